@@ -90,9 +90,10 @@ def _stress(case, u):
     try:
         a = list(segment_clip(clip, case["d"] * u, **kw))
     except Exception as ex:
-        return {"raised": type(ex).__name__, "cs": limbs(clip.start_time), "ce": limbs(clip.end_time), "segs": [],
+        return {"raised": type(ex).__name__, "cs": limbs(clip.start_time), "ce": limbs(clip.end_time), "hd": limbs(0.0), "segs": [],
                 "samerec": True, "ids_distinct": True}
-    return {"raised": "", "cs": limbs(clip.start_time), "ce": limbs(clip.end_time),
+    hop = kw.get("hop", case["d"] * u)
+    return {"raised": "", "cs": limbs(clip.start_time), "ce": limbs(clip.end_time), "hd": limbs(hop),
             "segs": [[limbs(x.start_time), limbs(x.end_time)] for x in a],
             "samerec": all(x.recording == clip.recording for x in a),
             "ids_distinct": len({x.uuid for x in a}) == len(a)}
